@@ -219,9 +219,20 @@ impl World {
 }
 
 /// Runs `f` with the current run's world. Panics when no run is active.
+/// Set when simulated API is used on a thread that has no world: the system under test
+/// started a real thread of its own (or a destructor ran after tear-down). The harness
+/// cannot decide anything about such a run and reports a harness error, never a verdict.
+static FOREIGN_USE: std::sync::atomic::AtomicBool = std::sync::atomic::AtomicBool::new(false);
+pub fn take_foreign_use() -> bool {
+    FOREIGN_USE.swap(false, std::sync::atomic::Ordering::SeqCst)
+}
+
 pub fn with<R>(f: impl FnOnce(&mut World) -> R) -> R {
     WORLD.with(|c| {
         let mut b = c.borrow_mut();
+        if b.is_none() {
+            FOREIGN_USE.store(true, std::sync::atomic::Ordering::SeqCst);
+        }
         f(b.as_mut().expect("sim-core: no simulated world is active on this thread"))
     })
 }
